@@ -21,6 +21,9 @@ class Creators:
     """
     if gfa_line is None:
       return
+    if isinstance(gfa_line, str) and len(gfa_line) == 0:
+      # empty lines (e.g. after a final newline) are ignored
+      return
     if self._version == "gfa1":
       self.__add_line_GFA1(gfa_line)
     elif self._version == "gfa2":
